@@ -186,6 +186,55 @@ def normalization_small_norms():
     return fails, n
 
 
+def nested_attribute_paths():
+    """Clamping / Normalization on an attribute given in dot notation with one, two and three components: the hooked
+    value (and nothing else) is rewritten on the last object of the path"""
+    fails, n = [], 0
+
+    class Box(inferno.Module):
+        def __init__(self, depth):
+            super().__init__()
+            self.register_buffer("weight", torch.tensor([[3.0, -4.0], [0.5, 0.25]]))
+            if depth > 0:
+                self.sub = Box(depth - 1) if depth == 2 else Leaf()
+
+        def forward(self, x=None):
+            return x
+
+    class Leaf(inferno.Module):
+        def __init__(self):
+            super().__init__()
+            self.register_buffer("weight", torch.tensor([[3.0, -4.0], [0.5, 0.25]]))
+
+    for path in ("weight", "sub.weight", "sub.sub.weight"):
+        for kind in ("clamp", "norm"):
+            n += 1
+            depth = path.count(".")
+            net = Box(depth)
+            objs = [net] + ([net.sub] if depth >= 1 else []) + ([net.sub.sub] if depth == 2 else [])
+            hook = Clamping(net, path, min=-1.0, max=2.0) if kind == "clamp" else Normalization(net, path, 2, 1.0, -1)
+            hook.register()
+            try:
+                net(1)
+            except Exception as e:  # noqa: BLE001
+                fails.append({"what": "C16/nested_attribute_path", "input": dict(path=path, hook=kind), "expected": "runs", "actual": f"{type(e).__name__}: {e}"})
+                continue
+            w0 = torch.tensor([[3.0, -4.0], [0.5, 0.25]])
+            exp = w0.clamp(-1.0, 2.0) if kind == "clamp" else w0 / torch.linalg.vector_norm(w0, ord=2, dim=-1, keepdim=True)
+            bad = []
+            for i, o in enumerate(objs):
+                want = exp if i == len(objs) - 1 else w0
+                if not torch.allclose(o.weight, want, atol=1e-6):
+                    bad.append(i)
+            if bad:
+                fails.append({"what": "C16/nested_attribute_path", "input": dict(path=path, hook=kind), "expected": "only the last object of the path is rewritten", "actual": f"objects at depth {bad} differ"})
+    uniq = []
+    for f in fails:
+        if not any(u["what"] == f["what"] for u in uniq):
+            uniq.append(f)
+    return uniq, n
+
+
 def sweep(tier="quick", seed=0, unsupported=()):
     failures, cases = [], 0
     for s in range(150 if tier == "quick" else 5000):
@@ -197,7 +246,7 @@ def sweep(tier="quick", seed=0, unsupported=()):
     f = state_hooks(seed)
     if f is not None:
         failures.append(f)
-    for fn in (clamping_bounds, manual_trigger_table, normalization_small_norms):
+    for fn in (clamping_bounds, manual_trigger_table, normalization_small_norms, nested_attribute_paths):
         fs, k = fn()
         cases += k
         failures.extend(fs)
@@ -216,6 +265,9 @@ def replay_native(rp):
     what = rp.get("what", "")
     if what == "C16/clamping_bounds":
         fs, _ = clamping_bounds()
+        return {"reproduced": bool(fs), "failure": fs[0] if fs else None}
+    if what == "C16/nested_attribute_path":
+        fs, _ = nested_attribute_paths()
         return {"reproduced": bool(fs), "failure": fs[0] if fs else None}
     if what == "C16/normalization_small_norms":
         fs, _ = normalization_small_norms()
